@@ -69,4 +69,35 @@ def wildcardSpec (hashOf : Version.Key × Version.Key → Nat) : MemoSpec (Versi
   { f := fun p => singleWildcardRangeString p.1 p.2, hash := fun p => hashOf (p.1.key, p.2.key),
     eq := fun a b => Version.eqv a.1 b.1 && Version.eqv a.2 b.2 }
 
+/-! ### the SPDX licence table (`spdx/helpers.py`) -/
+
+/-- `License(id, name, is_osi_approved, is_deprecated)` -/
+abbrev Lic := String × String × Bool × Bool
+
+/-- the table: lower-cased key ↦ licence -/
+abbrev LicTable := List (List Char × Lic)
+
+/-- `str.lower()` (ASCII) -/
+def lowerStr (s : String) : List Char := s.toList.map lowerChar
+
+/-- `licenses.get(identifier.lower(), License(identifier, identifier, False, False))` over the table that the
+`lru_cache`d, argument-less `_load_licenses()` returns (keys lower-cased) — what `license_by_id` computes -/
+def licenseById (table : List (List Char × Lic)) (identifier : String) : PyM Lic :=
+  if identifier.toList.isEmpty then .error .value
+  else match table.find? (fun p => p.1 == lowerStr identifier) with
+    | some p => .ok p.2
+    | none => .ok (identifier, identifier, false, false)
+
+/-- the seeded class `licenses.setdefault(identifier.lower(), License(identifier, …))`: the table itself becomes a memo
+cache of `license_by_id`, keyed by the LOWER-CASED identifier (lookup; absent → build the custom licence → store) -/
+def licenseSetdefaultSpec (table : List (List Char × Lic)) (hashOf : List Char → Nat) : MemoSpec String Lic :=
+  { f := licenseById table, hash := fun k => hashOf (lowerStr k), eq := fun a b => lowerStr a == lowerStr b }
+
+/-- the cache that IS there: `functools.lru_cache` on the argument-less `_load_licenses()` — one key -/
+def loadLicensesSpec (load : PyM LicTable) : MemoSpec Unit LicTable :=
+  { f := fun _ => load, hash := fun _ => 0, eq := fun _ _ => true }
+
+theorem loadLicensesSpec_congr (load : PyM LicTable) : (loadLicensesSpec load).Congr := by
+  intro k' k _; rfl
+
 end Poetry.Conc
